@@ -43,6 +43,14 @@ def rewrites(src):
             if len(parts) >= 2 and a in ("from", "into", "as_ref", "as_mut"):
                 split = " ".join("#[%s(%s)]" % (a, p) for p in parts)
                 out.append(("%s:split-list" % a, src[:m.start()] + split + src[m.end():]))
+                # several attributes in any order, and partial splits (merging must be order-independent)
+                rsplit = " ".join("#[%s(%s)]" % (a, p) for p in reversed(parts))
+                out.append(("%s:split-list-reversed" % a, src[:m.start()] + rsplit + src[m.end():]))
+                if len(parts) >= 3:
+                    part = "#[%s(%s)] #[%s(%s)]" % (a, parts[-1], a, ", ".join(parts[:-1]))
+                    out.append(("%s:split-partial" % a, src[:m.start()] + part + src[m.end():]))
+            if len(parts) >= 2:
+                out.append(("%s:list-reversed" % a, src[:m.start()] + "#[%s(%s)]" % (a, ", ".join(reversed(parts))) + src[m.end():]))
             # a trailing comma is a list notion: single keywords (`skip`, `forward`) are not lists
             if parts and not body.rstrip().endswith(",") and not (len(parts) == 1 and parts[0] in ("skip", "ignore", "forward")):
                 out.append(("%s:trailing-comma" % a, src[:m.start()] + "#[%s(%s,)]" % (a, body) + src[m.end():]))
@@ -70,6 +78,13 @@ EXTRA_ITEMS = [
     (["From"], "pub enum @N@ { #[from(ignore)] A(i64), B(u8) }"),
     (["Into"], "#[into(i64, i128)] pub struct @N@(i32);"),
     (["Into"], "#[into(owned, ref, ref_mut)] pub struct @N@(i32, u8);"),
+    (["Into"], "#[into(ref, ref_mut)] pub struct @N@(i32, u8);"),
+    (["Into"], "#[into(owned, ref_mut)] pub struct @N@(i32);"),
+    (["Into"], "#[into(owned, ref)] pub struct @N@ { a: i32, #[into(ref, ref_mut)] b: u8 }"),
+    (["Into"], "pub struct @N@ { #[into(ref_mut, owned)] a: i32, b: u8 }"),
+    (["TryInto"], "#[try_into(ref, ref_mut)] pub enum @N@ { A(u8), B(u16) }"),
+    (["Unwrap", "TryUnwrap"], "#[unwrap(ref_mut, owned)] #[try_unwrap(ref_mut, owned)] pub enum @N@ { A(u8), B(u16) }"),
+    (["IntoIterator"], "#[into_iterator(ref_mut, ref)] pub struct @N@(Vec<u8>);"),
     (["Into"], "pub struct @N@ { #[into(skip)] a: i32, b: u8, #[into(ignore)] c: u16 }"),
     (["Into"], "#[into(owned(i64, i128), ref(i32))] pub struct @N@(i32);"),
     (["AsRef", "AsMut"], "#[as_ref(str, [u8])] #[as_mut(str)] pub struct @N@(String);"),
